@@ -467,9 +467,22 @@ func runAL5(c *Ctx, s *Sink) {
 		s.Undecided(nil, key, 0, "function not found")
 	} else {
 		info := p.TypesInfo
+		// the link: the field of BioSequence whose type is *BioSequence (whatever its name)
 		isLink := func(e ast.Expr) bool {
 			sel, ok := ast.Unparen(e).(*ast.SelectorExpr)
-			return ok && sel.Sel.Name == "revcomp"
+			if !ok {
+				return false
+			}
+			fv, ok := info.ObjectOf(sel.Sel).(*types.Var)
+			if !ok || !fv.IsField() {
+				return false
+			}
+			ptr, ok := fv.Type().(*types.Pointer)
+			xt := info.TypeOf(sel.X)
+			if xp, isPtr := xt.(*types.Pointer); isPtr {
+				xt = xp.Elem()
+			}
+			return ok && namedTypeName(ptr.Elem()) == modPath+"/pkg/obiseq.BioSequence" && namedTypeName(xt) == modPath+"/pkg/obiseq.BioSequence"
 		}
 		// the statement that starts reversing the content: the first loop of the body, or the first call
 		// of a package helper whose body swaps with nucComplement
